@@ -803,15 +803,9 @@ func (w *Writer) writeImageAtomic(imgAtomic ir.StmtImageAtomic) error {
 		value = fmt.Sprintf("-%s", value)
 	}
 
-	// Build coordinate (including array index if present)
-	coord := coordinate
-	if imgAtomic.ArrayIndex != nil {
-		arrayIdx, err := w.writeExpression(*imgAtomic.ArrayIndex)
-		if err != nil {
-			return err
-		}
-		coord = fmt.Sprintf("ivec3(%s, %s)", coordinate, arrayIdx)
-	}
+	// Build coordinate (array index merged in, unsigned converted to signed)
+	imgType := w.resolveImageType(imgAtomic.Image)
+	coord := w.buildTextureCoord(coordinate, imgAtomic.Coordinate, imgAtomic.ArrayIndex, imgType)
 
 	w.WriteLine("imageAtomic%s(%s, %s, %s);", funStr, image, coord, value)
 	return nil
